@@ -205,7 +205,7 @@ func init() {
 	ctl("late failure not reported", "R-REPORT", "result assignment reaches results[i]", "database/transaction", "Transaction", "Transact", kStmt, "result := r", 0, func(orig string) string {
 		return orig + "\nresults[i] = &result\nif u != nil {\nr = ovsdb.ResultFromError(fmt.Errorf(\"late\"))\n}"
 	})
-	ctl("deleted rows not filtered", "T-DELROWS", "Database.List overlaid", "database/transaction", "Transaction", "rowsFromTransactionCacheAndDatabase", kStmt, "delete(rows, rowUUID)", 0, del)
+	ctl("deleted rows not filtered", "T-DELROWS", "Database.List overlaid", "database/transaction", "Transaction", "rowsFromTransactionCacheAndDatabase", kStmt, "delete(rows, rowUUID)", 0, to("_ = rowUUID"))
 	ctl("deletion tracked only for rows not yet cached", "DEL-TRACK", "applyReferenceUpdates", "database/transaction", "Transaction", "applyReferenceUpdates", kExpr, "old != nil && new == nil", 0, to("old != nil && new == nil && !t.Cache.Table(table).HasRow(uuid)"))
 	ctl("lookup hashes a local column list", "X6", "valueFromIndex columns", "cache", "RowCache", "IndexExists", kExpr, "indexSpec.columns", 0, to("append([]model.ColumnKey{}, indexSpec.columns...)[:len(indexSpec.columns)]"))
 	ctl("simpleAtomic ignores minLength", "K5", "simpleAtomic|member minLength", "ovsdb", "BaseType", "simpleAtomic", kExpr, "b.minLength == nil", 0, to("true"))
